@@ -191,6 +191,8 @@ type c05File struct {
 	rows    []int // rows per page (= per Write call)
 	cells   [][][]*c05Val
 	only    string // replay: check this column only
+	maxRows int    // MaxRowsPerRowGroup (0 = one row group)
+	multi   bool   // set while checking: the file has several row groups
 }
 
 func (f *c05File) colText(ci int) string {
@@ -229,6 +231,15 @@ func c05GenFile(r *rand.Rand, id string) *c05File {
 			n = 5 + r.Intn(28)
 		}
 		f.rows = append(f.rows, n)
+	}
+	if r.Intn(3) == 0 {
+		// several row groups: the writer keeps every row group's column index until Close while the
+		// indexers are reset and refilled, so each row group must be checked against its own pages
+		total := 0
+		for _, n := range f.rows {
+			total += n
+		}
+		f.maxRows = 1 + r.Intn(max(1, total/2))
 	}
 	f.cells = make([][][]*c05Val, len(c05Cols))
 	for ci, col := range c05Cols {
@@ -313,7 +324,8 @@ func c05ReplayFile(ctx *core.Ctx) *c05File {
 	pagesText, _ := d["pages"].(string)
 	lim, _ := d["limit"].(float64)
 	ver, _ := d["page_version"].(float64)
-	f := &c05File{id: "replay", lim: int(lim), version: int(ver), only: colName}
+	maxRows, _ := d["max_rows_per_row_group"].(float64)
+	f := &c05File{id: "replay", lim: int(lim), version: int(ver), only: colName, maxRows: int(maxRows)}
 	target := -1
 	for ci, col := range c05Cols {
 		if col.name == colName {
@@ -367,12 +379,16 @@ func (f *c05File) write() (data []byte, pan any) {
 	var buf bytes.Buffer
 	pan = c05Recover(func() {
 		lim := f.lim
-		w := parquet.NewGenericWriter[c05Row](&buf,
+		opts := []parquet.WriterOption{
 			parquet.PageBufferSize(1),
 			parquet.ColumnIndexSizeLimit(func([]string) int { return lim }),
 			parquet.DataPageStatistics(true),
 			parquet.DataPageVersion(f.version),
-		)
+		}
+		if f.maxRows > 0 {
+			opts = append(opts, parquet.MaxRowsPerRowGroup(int64(f.maxRows)))
+		}
+		w := parquet.NewGenericWriter[c05Row](&buf, opts...)
 		for p, n := range f.rows {
 			rows := make([]c05Row, n)
 			for ci, col := range c05Cols {
@@ -485,6 +501,11 @@ func runStatsFiles(ctx *core.Ctx, c05 bool) {
 			if c05 {
 				b.d = ctx.Driver()
 			}
+			if c05 {
+				for i := w; i < ctx.Scale(2, 16); i += workers {
+					c05BigFile(ctx, b, i)
+				}
+			}
 			for i := 0; i < nfiles/workers; i++ {
 				f := c05GenFile(r, fmt.Sprintf("statsfiles/%d#%d", w, i))
 				c05CheckFile(ctx, b, f, c05, i < 1 && w == 0)
@@ -501,7 +522,7 @@ func c05CheckFile(ctx *core.Ctx, b *c05Batch, f *c05File, c05 bool, sample bool)
 		h.Write([]byte(f.colText(ci)))
 		h.Write([]byte{0})
 	}
-	canon := fmt.Sprintf("file lim=%d v=%d %s", f.lim, f.version, hex.EncodeToString(h.Sum(nil)))
+	canon := fmt.Sprintf("file lim=%d v=%d maxrows=%d %s", f.lim, f.version, f.maxRows, hex.EncodeToString(h.Sum(nil)))
 	ctx.Case(canon, len(f.rows) >= 2)
 	ctx.Hist("file-pages", c05Bucket(len(f.rows)))
 	ctx.Hist("file-limit", c05Bucket(f.lim))
@@ -510,7 +531,7 @@ func c05CheckFile(ctx *core.Ctx, b *c05Batch, f *c05File, c05 bool, sample bool)
 		ctx.Sample(map[string]any{"file": f.id, "limit": f.lim, "version": f.version, "rows_per_page": f.rows,
 			"oi32": f.colText(1), "os": f.colText(13)})
 	}
-	base := map[string]any{"file": f.id, "limit": f.lim, "page_version": f.version, "rows_per_page": f.rows}
+	base := map[string]any{"file": f.id, "limit": f.lim, "page_version": f.version, "rows_per_page": f.rows, "max_rows_per_row_group": f.maxRows}
 	data, pan := f.write()
 	if pan != nil {
 		ctx.Fail("L1", "writer-panic", fmt.Sprint(pan), base)
@@ -528,50 +549,241 @@ func c05CheckFile(ctx *core.Ctx, b *c05Batch, f *c05File, c05 bool, sample bool)
 		return
 	}
 	rgs := pf.RowGroups()
-	if len(rgs) != 1 {
+	if f.maxRows == 0 && len(rgs) != 1 {
 		ctx.Fail("L1", "unexpected-row-groups", fmt.Sprintf("%d row groups", len(rgs)), base)
 		return
 	}
-	chunks := rgs[0].ColumnChunks()
-	md := pf.Metadata().RowGroups[0].Columns
+	ctx.Hist("file-row-groups", c05Bucket(len(rgs)))
+	f.multi = len(rgs) > 1
 	rawIdx := pf.ColumnIndexes()
-	for ci, col := range c05Cols {
-		if f.only != "" && f.only != col.name {
-			continue
-		}
-		kk := *c05KindByName(col.kind)
-		kk.typ = chunks[ci].Type() // the file's own type defines the order
-		detail := func(extra map[string]any) map[string]any {
-			m := map[string]any{"op": "file", "column": col.name, "kind": col.kind, "pages": f.colText(ci)}
-			for k, v := range base {
-				m[k] = v
+	rowsSeen := 0
+	for g, rg := range rgs {
+		chunks := rg.ColumnChunks()
+		md := pf.Metadata().RowGroups[g].Columns
+		rowsSeen += int(rg.NumRows())
+		for ci, col := range c05Cols {
+			if f.only != "" && f.only != col.name {
+				continue
 			}
-			for k, v := range extra {
-				m[k] = v
+			kk := *c05KindByName(col.kind)
+			kk.typ = chunks[ci].Type() // the file's own type defines the order
+			detail := func(extra map[string]any) map[string]any {
+				m := map[string]any{"op": "file", "column": col.name, "kind": col.kind, "pages": f.colText(ci), "row_group": g, "row_groups": len(rgs)}
+				for k, v := range base {
+					m[k] = v
+				}
+				for k, v := range extra {
+					m[k] = v
+				}
+				return m
 			}
-			return m
-		}
-		var raw *format.ColumnIndex
-		if len(rawIdx) == len(c05Cols) {
-			raw = &rawIdx[ci]
-		}
-		var pages []c05ReadPage
-		var rerr error
-		if p := c05Recover(func() { pages, rerr = c05ReadPages(&kk, chunks[ci]) }); p != nil || rerr != nil {
-			ctx.Fail("L1", "read-pages-failed "+col.kind, fmt.Sprint(p, rerr), detail(nil))
-			continue
-		}
-		if len(pages) != len(f.rows) {
-			ctx.Hist("page-cut", "differs-from-write-calls")
-		} else {
-			ctx.Hist("page-cut", "one-page-per-write")
-		}
-		if c05 {
-			c05CheckChunk(ctx, b, &kk, col, f, data, chunks[ci], raw, &md[ci].MetaData, pages, detail)
-		} else {
-			c06CheckChunk(ctx, &kk, col, f, chunks[ci], raw != nil && len(raw.MinValues) != len(raw.NullPages), pages, detail)
+			var raw *format.ColumnIndex
+			if len(rawIdx) == len(c05Cols)*len(rgs) {
+				raw = &rawIdx[g*len(c05Cols)+ci]
+			}
+			var pages []c05ReadPage
+			var rerr error
+			if p := c05Recover(func() { pages, rerr = c05ReadPages(&kk, chunks[ci]) }); p != nil || rerr != nil {
+				ctx.Fail("L1", "read-pages-failed "+col.kind, fmt.Sprint(p, rerr), detail(nil))
+				continue
+			}
+			if len(rgs) == 1 {
+				if len(pages) != len(f.rows) {
+					ctx.Hist("page-cut", "differs-from-write-calls")
+				} else {
+					ctx.Hist("page-cut", "one-page-per-write")
+				}
+			}
+			if c05 {
+				c05CheckChunk(ctx, b, &kk, col, f, data, chunks[ci], raw, &md[ci].MetaData, pages, detail)
+			} else {
+				c06CheckChunk(ctx, &kk, col, f, chunks[ci], raw != nil && len(raw.MinValues) != len(raw.NullPages), pages, detail)
+			}
 		}
 	}
+	total := 0
+	for _, n := range f.rows {
+		total += n
+	}
+	if rowsSeen != total {
+		ctx.Fail("L1", "row-groups-lose-rows", fmt.Sprintf("%d rows written, %d rows in %d row groups", total, rowsSeen, len(rgs)), base)
+	}
+}
+
+// c05BigFile: default page size, one Write call of 70000+ rows over the six numeric columns, so that
+// the 64-bit columns get pages of about 32113 values and the 32-bit columns pages of about 64000
+// (the lengths at which boundsXxx switches kernels). Every page's column index entry, page header
+// statistics and the chunk statistics must bound (and, untruncated, be attained by) the values read
+// back, in the column's order; the page header min/max are also compared with the Lean mirror of
+// Bounds() on the values of the page (L2).
+func c05BigFile(ctx *core.Ctx, b *c05Batch, idx int) {
+	id := fmt.Sprintf("statsbig#%d", idx)
+	r := ctx.Rand(id)
+	n := 70000 + r.Intn(4000)
+	cols := []struct{ name, kind string }{{"i32", "i32"}, {"i64", "i64"}, {"u32", "u32"}, {"u64", "u64"}, {"f32", "f32"}, {"f64", "f64"}}
+	rows := make([]c05ReuseRow, n)
+	for _, c := range cols {
+		k := c05KindByName(c.kind)
+		vs, _ := k.genList(r, n)
+		for i, v := range vs {
+			switch c.name {
+			case "i32":
+				rows[i].I32 = int32(uint32(v.bits))
+			case "i64":
+				rows[i].I64 = int64(v.bits)
+			case "u32":
+				rows[i].U32 = uint32(v.bits)
+			case "u64":
+				rows[i].U64 = v.bits
+			case "f32":
+				rows[i].F32 = math.Float32frombits(uint32(v.bits))
+			case "f64":
+				rows[i].F64 = math.Float64frombits(v.bits)
+			}
+		}
+	}
+	ctx.Case(fmt.Sprintf("bigfile %s n=%d", id, n), true)
+	ctx.Hist("file-pages", "big")
+	base := map[string]any{"op": "bigfile", "file": id, "rows": n, "note": "values are regenerated from the run seed (stream = file id)"}
+	var buf bytes.Buffer
+	var pf *parquet.File
+	if p := c05Recover(func() {
+		w := parquet.NewGenericWriter[c05ReuseRow](&buf, parquet.DataPageStatistics(true))
+		if _, err := w.Write(rows); err != nil {
+			panic(err)
+		}
+		if err := w.Close(); err != nil {
+			panic(err)
+		}
+		var err error
+		if pf, err = parquet.OpenFile(bytes.NewReader(buf.Bytes()), int64(buf.Len())); err != nil {
+			panic(err)
+		}
+	}); p != nil {
+		ctx.Fail("L1", "bigfile-write-or-open-failed", fmt.Sprint(p), base)
+		return
+	}
+	data := buf.Bytes()
+	for g, rg := range pf.RowGroups() {
+		for ci, c := range cols {
+			kk := *c05KindByName(c.kind)
+			cc := rg.ColumnChunks()[ci]
+			kk.typ = cc.Type()
+			k := &kk
+			detail := func(extra map[string]any) map[string]any {
+				m := map[string]any{"column": c.name, "kind": c.kind, "row_group": g}
+				for kx, v := range base {
+					m[kx] = v
+				}
+				for kx, v := range extra {
+					m[kx] = v
+				}
+				return m
+			}
+			var pages []c05ReadPage
+			var rerr error
+			if p := c05Recover(func() { pages, rerr = c05ReadPages(k, cc) }); p != nil || rerr != nil {
+				ctx.Fail("L1", "read-pages-failed "+c.kind, fmt.Sprint(p, rerr), detail(nil))
+				continue
+			}
+			ci2, err := cc.ColumnIndex()
+			oi, err2 := cc.OffsetIndex()
+			if err != nil || err2 != nil {
+				ctx.Fail("L1", "column-index-missing "+c.kind, fmt.Sprint(err, err2), detail(nil))
+				continue
+			}
+			v := c05ViewIndex(k, ci2)
+			if v.panicked != nil || v.n != len(pages) || oi.NumPages() != len(pages) {
+				ctx.Fail("L1", "index-numpages "+c.kind, fmt.Sprintf("NumPages()=%d, %d pages read, panic=%v", v.n, len(pages), v.panicked), detail(nil))
+				continue
+			}
+			var all []c05Val
+			for i, p := range pages {
+				ctx.Hist("bigfile-page-values", c05BigBucket(len(p.vals)))
+				all = append(all, p.vals...)
+				d := func(extra map[string]any) map[string]any {
+					tmn, tmx, _, _ := c05PageBoundsPortable(k, p.vals)
+					m := detail(map[string]any{"page": i, "page_values": len(p.vals), "true_min": k.text(tmn), "true_max": k.text(tmx)})
+					for kx, vx := range extra {
+						m[kx] = vx
+					}
+					return m
+				}
+				if key, what := c05BoundsOracle(k, p.vals, v.min[i], v.max[i], !v.nullPage[i], true); key != "" {
+					ctx.Fail("L1", c05BoundKey("bigpage-index-", key, c.kind), "column index of a default-size page: "+what, d(map[string]any{"entry_min": k.text(v.min[i]), "entry_max": k.text(v.max[i])}))
+				}
+				var hdr format.PageHeader
+				off := oi.Offset(i)
+				if off < 0 || off >= int64(len(data)) || thrift.NewDecoder(new(thrift.CompactProtocol).NewReaderFromBytes(bytes.Clone(data[off:min(int64(len(data)), off+4096)]))).Decode(&hdr) != nil {
+					ctx.Fail("L1", "page-header-unreadable "+c.kind, fmt.Sprintf("page %d at offset %d", i, off), detail(nil))
+					continue
+				}
+				var st *format.Statistics
+				switch {
+				case hdr.DataPageHeader.Valid:
+					st = &hdr.DataPageHeader.V.Statistics
+				case hdr.DataPageHeaderV2.Valid:
+					st = &hdr.DataPageHeaderV2.V.Statistics
+				default:
+					continue
+				}
+				s, ok := c05DecodeStats(k, st, len(p.vals) > 0)
+				if !ok || !s.has {
+					ctx.Fail("L1", "page-stats-missing "+c.kind, "no page header statistics", d(nil))
+					continue
+				}
+				if key, what := c05BoundsOracle(k, p.vals, s.min, s.max, true, true); key != "" {
+					ctx.Fail("L1", c05BoundKey("bigpage-stats-", key, c.kind), "page header statistics of a default-size page: "+what, d(map[string]any{"stat_min": k.text(s.min), "stat_max": k.text(s.max)}))
+				}
+				got := "ok " + k.text(s.min) + " " + k.text(s.max)
+				b.ask("c05.bounds "+k.drv+" "+k.texts(p.vals), func(ans string) {
+					if ans != got {
+						ctx.Fail("L2", "bigfile-bounds-mirror "+c.kind, "page header min/max of a default-size page differ from the Lean mirror of Bounds() on the values read back", d(map[string]any{"impl": got, "model": ans, "build": ctx.Variant}))
+					}
+				})
+			}
+			md := &pf.Metadata().RowGroups[g].Columns[ci].MetaData
+			s, ok := c05DecodeStats(k, &md.Statistics, len(all) > 0)
+			if !ok || !s.has {
+				ctx.Fail("L1", "chunk-stats-missing "+c.kind, "the chunk has values but no min/max", detail(nil))
+				continue
+			}
+			if key, what := c05BoundsOracle(k, all, s.min, s.max, true, false); key != "" {
+				ctx.Fail("L1", c05BoundKey("bigpage-chunk-stats-", key, c.kind), "chunk statistics over default-size pages: "+what, detail(map[string]any{"chunk_min": k.text(s.min), "chunk_max": k.text(s.max)}))
+			}
+		}
+	}
+}
+
+func c05BigBucket(n int) string {
+	switch {
+	case n < 32113:
+		return "<32113"
+	case n < 60000:
+		return "32113-59999"
+	default:
+		return ">=60000"
+	}
+}
+
+// true min/max by the column's own Compare, NaN ignored (for failure details only)
+func c05PageBoundsPortable(k *c05Kind, vs []c05Val) (mn, mx c05Val, ok bool, _ any) {
+	for _, v := range vs {
+		if k.isNaN(v) {
+			continue
+		}
+		if !ok {
+			mn, mx, ok = v, v, true
+			continue
+		}
+		if k.cmp(v, mn) < 0 {
+			mn = v
+		}
+		if k.cmp(v, mx) > 0 {
+			mx = v
+		}
+	}
+	return
 }
 
 // index entries as the reader sees them (under recover: MinValue panics on short lists)
@@ -676,7 +888,12 @@ func c05CheckChunk(ctx *core.Ctx, b *c05Batch, k *c05Kind, col c05Col, f *c05Fil
 					ctx.Fail("L1", "null-pages-flag-wrong "+col.kind, "null_pages flag differs from 'the page has no non-null value'", d())
 				}
 				if v.nullCount[i] != int64(p.nulls) {
-					ctx.Fail("L1", "null-counts-wrong "+col.kind, "null_counts entry differs from the number of nulls read", d())
+					key, what := "null-counts-wrong "+col.kind, "null_counts entry differs from the number of nulls read"
+					if f.multi {
+						// one signature for every column kind: the per-row-group indexes share state
+						key, what = "null-counts-wrong-multi-row-group", "null_counts entry of a row group of a file with several row groups differs from the number of nulls read from that row group's page (column indexes of earlier row groups must not change when the indexer is reset and refilled)"
+					}
+					ctx.Fail("L1", key, what, d())
 				}
 				if v.nullPage[i] || len(p.vals) == 0 || shifted {
 					continue
